@@ -880,21 +880,17 @@ impl Calendar {
             inner::Calendar::Reforming { gap, .. } => match self.year_kind(year) {
                 YearKind::Common => COMMON_YEAR_LENGTH as u32,
                 YearKind::Leap => LEAP_YEAR_LENGTH as u32,
-                k @ (YearKind::ReformCommon | YearKind::ReformLeap) => {
-                    let length = if matches!(k, YearKind::ReformCommon) {
-                        COMMON_YEAR_LENGTH as u32
-                    } else {
-                        LEAP_YEAR_LENGTH as u32
-                    };
+                YearKind::ReformCommon | YearKind::ReformLeap => {
                     if year == gap.post_reform.year {
-                        // If this is a Julian-only leap year and the year kind
-                        // is ReformLeap, then the year contains a Julian-only
-                        // leap day and we need to add 1 to `ordinal_gap`
-                        // because the `pre_reform.ordinal` subtrahend that
-                        // produced it counted the leap day but the
-                        // `post_reform.ordinal` minuend did not.
-                        let correction = (year % 100 == 0 && year % 400 != 0 && k.is_leap()) as u32;
-                        length - gap.ordinal_gap - correction
+                        // The last day of this year is a Gregorian date, so
+                        // its ordinal is its proleptic Gregorian ordinal (the
+                        // Gregorian length of the year) less the ordinal gap.
+                        let length = if inner::is_gregorian_leap_year(year) {
+                            LEAP_YEAR_LENGTH as u32
+                        } else {
+                            COMMON_YEAR_LENGTH as u32
+                        };
+                        length - gap.ordinal_gap
                     } else {
                         debug_assert!(year == gap.pre_reform.year);
                         gap.pre_reform.ordinal
